@@ -225,7 +225,7 @@ def c08(directed, ops, outcomes, pres, dump, lo, hi):
 
 
 # ----------------------------------------------------------------------------------------- C02
-def c02(directed, q, pres, t, all_nodes, attrs, nbunch=None):
+def c02(directed, q, pres, t, all_nodes, attrs, nbunch=None, ids=None):
     """q = output of `q2 s t [nbunch]`; presence from has_interaction (pres) at instant t, or flattened."""
     fails = []
     pm = pres_map(pres)
@@ -325,7 +325,7 @@ def c02(directed, q, pres, t, all_nodes, attrs, nbunch=None):
         chk("hasnode@%d" % c, e["hasnode"], 1 if (t is None or succ[c] or pred[c]) else 0)
         chk("deg1@%d" % c, e["deg1"], deg(c))
         if t is None and "snaps" in e:
-            exp = sorted({x for (u, v), (_, ts) in pm.items() if u == c or v == c for x in ts})
+            exp = sorted({x for (u, v), (_, ts) in pm.items() if u == c or v == c for x in ts if ids is None or x in ids})
             chk("snaps@%d" % c, e["snaps"], exp)
     for a in V:
         for b in V:
